@@ -258,13 +258,22 @@ MUTANTS += (
      "String\n}\n\n"
      "extend type %(q)s {\n  m_item7: Item7\n  m_obj7: Obj7\n}"),
 )
+MUTANTS += (
+    # two violations on ONE field of one (object, interface) pair: the wrong
+    # type and a missing argument
+    ("two-on-one-field",
+     "interface Shape8 {\n  ff(arg: Int): String\n}\n\n"
+     "type Sq8 implements Shape8 {\n  ff: Int\n}\n\n"
+     "extend type %(q)s {\n  m_sq8: Sq8\n}"),
+)
 # violations each labelled mutant injects ("reporting all violations together")
-MUTANT_COUNTS = {"three-on-one-pair": 3, "interface-own-and-implementation": 2}
+MUTANT_COUNTS = {"three-on-one-pair": 3, "interface-own-and-implementation": 2,
+                 "two-on-one-field": 2}
 # documents whose acceptance is a violation whatever else they hold (the
 # older ones only feed the order / message-set comparison)
 MUTANT_MUST_REJECT = ("three-on-one-pair", "extra-required-arg",
                       "covariance-both-directions",
-                      "interface-own-and-implementation")
+                      "interface-own-and-implementation", "two-on-one-field")
 
 
 def run_machine(draws, state, tier):
